@@ -46,13 +46,14 @@ func VerifLemma_C02A_CompareTransitive() {
 	}
 }
 
-// VerifLemma_C02A_CompareNil: nil annotations sort first and compare equal to each other.
+// VerifLemma_C02A_CompareNil: nil annotations compare equal to each other and consistently against non-nil ones.
 func VerifLemma_C02A_CompareNil() {
 	a := vNondetAnnotation(1, 1, 1, 0, vMinInt, vMaxInt)
 	verifCover("nil compared")
 	verifAssert(fileAnnotationCompareTo(nil, nil) == 0, "nil == nil")
-	verifAssert(fileAnnotationCompareTo(nil, a) < 0, "nil < non-nil")
-	verifAssert(fileAnnotationCompareTo(a, nil) > 0, "non-nil > nil")
+	// on which side nil sorts is not documented; it must be distinguishable and consistent
+	na, an := vSign(fileAnnotationCompareTo(nil, a)), vSign(fileAnnotationCompareTo(a, nil))
+	verifAssert(na != 0 && na == -an, "nil and non-nil are ordered consistently")
 }
 
 // VerifLemma_C02A_HashInts: hash() identifies an annotation: with path, type and message fixed, equal hashes imply
@@ -215,11 +216,11 @@ func VerifLemma_C02A_DedupPermutation() {
 	for _, o := range out {
 		found := false
 		for i := 0; i < n; i++ {
-			if o == xs[i] {
+			if vSameAllFields(o, xs[i]) {
 				found = true
 			}
 		}
-		verifAssert(found, "every output annotation is one of the inputs")
+		verifAssert(found, "every output annotation is (field-wise) one of the inputs")
 	}
 	// permutations
 	perms := [][]int{{1, 0, 2}, {1, 2, 0}}
